@@ -1,0 +1,48 @@
+//go:build verif
+
+package mapset
+
+// Contracts for the govc verifier (/verif). Comment-only file: it contains no
+// executable code and is compiled only with the build tag `verif`.
+//
+// Abstract view of MapSet[T] / ImmutableMapSet[T]: the finite set of keys of
+// the map h.m. The methods are verified once, for an arbitrary type T.
+
+//@ func (MapSet) Contains
+//@   props C03 C11
+//@   results r
+//@   ensures r == has(h.m, item)
+
+//@ func (MapSet) Len
+//@   props C03 C11
+//@   results r
+//@   ensures r == len(h.m)
+
+//@ func (MapSet) Add
+//@   props C03 C11
+//@   modifies h
+//@   results added
+//@   ensures added == !has(old(h.m), item)
+//@   ensures forall x T :: has(h.m, x) == (x == item || has(old(h.m), x))
+//@   ensures len(h.m) == len(old(h.m)) + (has(old(h.m), item) ? 0 : 1)
+
+//@ func (MapSet) Remove
+//@   props C11
+//@   modifies h
+//@   results removed
+//@   ensures removed == has(old(h.m), item)
+//@   ensures forall x T :: has(h.m, x) == (x != item && has(old(h.m), x))
+
+//@ func (ImmutableMapSet) Contains
+//@   props C03 C11
+//@   results r
+//@   ensures r == has(h.m, item)
+
+//@ func (ImmutableMapSet) Len
+//@   props C03 C11
+//@   results r
+//@   ensures r == len(h.m)
+
+//@ func (MapSet) All
+//@   props C03 C11
+//@   itercanonical
